@@ -19,13 +19,16 @@ Pipeline (DESIGN.md 7/C13):
 
 Reading adopted (S3): classes are coarse {malformed(drop), mac, expired, future, iface, ifdown, segchange, dst};
 Drop / anyhow::Error count as "dropped" (= malformed); a timestamp in the future and the location of a rejection are
-I-spec only (DRIFT); the destination is checked where the path ends (Appendix B), not at transit ASes.
+I-spec only (DRIFT); the destination is checked where the path ends (Appendix B), not at transit ASes; for one-hop
+paths only accept/reject is compared (a router may drop an invalid one-hop packet silently, as scionproto does).
 """
 import scionnet_common as sn
 
 
 def run(c):
     binp = c.cargo_build("vh-pocket", bin="scionnet")
+    if c.replay and sn.replay_one(c, binp, "C13", "c13", True):
+        return
     thorough = c.tier == "thorough"
     c.assumptions += [
         "attack packets are built from spec-authentic segments (regular hop MAC under beta_i, peer hop MAC under beta_{i+1}); AES-CMAC trusted",
